@@ -110,8 +110,26 @@ def make_case(rng, i, tier):
         edges.append([edges[-1][0], edges[-1][1], Fraction(-1, 4)])
         edges.append([a0, b0, -w0 / 2])
         shape += "+cancelling"
+    bsigned = []
+    if R in ("Float", "Real") and rng.random() < 0.2:
+        # a strongly connected block {p, q} with ASYMMETRIC inner weights that is entered (from a source node and from
+        # the right-hand side) at both of its nodes with weights that cancel: +w into p, -w into q — each entering
+        # weight is non-zero, only their sum is zero, and the path sums through the block do not vanish
+        p_, q_, s_, t_ = "cp", "cq", "cs", "ct"
+        w = rng.choice([Fraction(1, 4), Fraction(1, 2)])
+        edges += [[p_, q_, Fraction(1, 2)], [q_, p_, Fraction(1, 4)], [s_, p_, w], [s_, q_, -w], [q_, t_, Fraction(1, 2)]]
+        if rng.random() < 0.5:
+            edges.append([p_, t_, Fraction(1, 4)])
+        if nodes and rng.random() < 0.5:
+            edges.append([rng.choice(nodes), s_, Fraction(1, 4)])
+        nodes = nodes + [p_, q_, s_, t_]
+        n = len(nodes)
+        bsigned = [[p_, w], [q_, -w]]
+        shape += "+cancelling_entry"
     rng.shuffle(nodes)
     b = [[q, rng.choice(W + [Fraction(1)])] for q in rng.sample(nodes, rng.randint(1, n))]
+    if bsigned:
+        b = [e for e in b if e[0] not in ("cp", "cq")] + bsigned
     enc = (lambda w: True) if R == "Boolean" else common.frac_str
     if R == "Lang":
         letters = iter("abcdefghijklmnopqrstuvwxyz" * 4)
